@@ -52,6 +52,17 @@ Oracle (independent reference; constants from USB 2.0 7.1.7.5/7.1.7.6 in 60 MHz 
   * HS operation and a restriction must not coexist for 3 consecutive periods ("leaves within two cycles");
   * chirp mode ends no later than 150 000 + 64 periods after the end of the device chirp, and it ends in HS operation or in
     normal mode at FS/LS.
+  * termination_select = 0 (HS termination) for 3+ periods in chirp mode or in FS/LS normal mode is high speed without a
+    completed handshake / after the fall-back (allowed only in HS operation and while non-driving); a fall-back must end
+    with FS/LS termination;
+  * LOW vs FULL: where the speed is (re)decided — power-up, fall-back out of chirp mode, HS left by restriction or VBUS loss,
+    restricted reset out of the HS-detect window, release of a soft disconnect — current_speed must be LOW iff low_speed_only,
+    judged only when low_speed_only was constant from 2 periods before to 3 after that point.
+Audit additions to the workload: low_speed_only / full_speed_only / both inside the HS-detect window with a reset outcome
+(hs_reset_chain 32 % of the HS plans, window restricted in 75 %), both restrictions together from power-up, a short soft
+disconnect with SE0 laid across its release (no reset may follow: the timers restart), disconnect requests while suspended
+and during the handshake, bus_busy at HS, and 45 % of the playground sessions elaborated on a platform object with
+ignore_phy_vbus = True (VBUS input ignored; the judge then treats VBUS as present).
 All comparisons allow the decision to be registered up to 3-4 periods later than in the current implementation, but never
 allow a shorter duration than the statement gives.
 
@@ -111,6 +122,9 @@ ASSUMPTIONS = [
     "three K-J pairs = K,J,K,J,K,J states of >= 150 continuous periods in this order after the device chirp; other states may lie between",
     "a device chirp K is tx.valid with tx.data = 0 in chirp mode for >= 1 ms (USB 2.0 TUCH)",
     "the only-if direction is judged; that HS / suspend / reset do happen is demanded through required bins",
+    "LOW vs FULL is judged only at the points where the speed is (re)decided and only when low_speed_only is constant around them; "
+    "between those points idle is defined by the device's own current_speed",
+    "the USBDevice wiring of the sequencer (device.py) is not elaborated: 0.2-0.9 M cycles per case are out of reach at 8 k cycles/s",
 ]
 LEVEL_NOTE = "event-driven monitoring of the real-constant sequencer; 0.2-1.2 M cycles per case"
 
@@ -1472,7 +1486,7 @@ def run_case(rng, tier, res):
         if pick < w:
             break
         pick -= w
-    ignore_vbus = sname == "playground" and rng.random() < 0.25
+    ignore_vbus = sname == "playground" and rng.random() < 0.45
     top = Harness()
     dut = top.dut
     top.inner = OnPlatform(dut) if ignore_vbus else None
